@@ -31,6 +31,10 @@ RULE = ("full product version x Connection value x method x request-body framing
         "served by a real Application (kind app) and by a raw HTTPMessageDelegate (kind raw), each followed by a pipelined second "
         "request; non-trivial = every case (each is one decision); random stream adds free-form Connection values")
 EXHAUSTIVE = {"quick": True, "thorough": True}
+CLAUSE_CAVEATS = [
+    "Spec.allows shares the Connection-option parser and the chunking decision with the model, so 'self-delimiting' is not independently characterised on the theorem side",
+    'close_announced / no_false_ack are proved for handlers that do not finish before the request body is read (D13 is a recorded known finding); a handler finishing mid-body is outside the generated domain',
+]
 CLAUSES = {
     "keeps the connection open exactly when request allows, not no_keep_alive, response self-delimiting, whole body read":
         "keepalive_iff_partial (all cases except early finish on a body-less request) + keepalive_iff_refuted (known finding) + canKeepAlive_eq_allows + undelimited_closes",
